@@ -20,21 +20,10 @@ structure AllS (F : FloatOps) (n : Nat) : Prop where
 syntax "ssz" : tactic
 macro_rules | `(tactic| ssz) => `(tactic| (simp at *; omega))
 
-theorem stmtF_declValue {B : List String} {pos tok : Nat}
-    {specs : List (Option Nat × List (Pos × String) × List (Option Expr))}
-    (h : StmtF B (.declValue pos tok specs) = true) :
-    ∃ iota ipos x e, specs = [(iota, [(ipos, x)], [some e])] ∧ (ExprF (bnd B) e && tok == tVar && x != "_") = true := by
-  unfold StmtF at h
-  split at h
-  all_goals first
-    | (rename_i heq; cases heq; done)
-    | (rename_i heq _; cases heq; done)
-    | (cases h; done)
-    | skip
-  rename_i heq
-  simp only [Stmt.declValue.injEq] at heq
-  obtain ⟨rfl, rfl, rfl⟩ := heq
-  exact ⟨_, _, _, _, rfl, h⟩
+theorem condF_split {B : List String} {c : Expr} (h : condF B c = true) (ht : ¬ isTrueLit c = true)
+    (hf : ¬ isFalseLit c = true) : ExprF (bnd B) c = true ∧ isBoolLit c = false := by
+  have h2 : (ExprF (bnd B) c && !isBoolLit c) = true := by simpa [condF, ht, hf] using h
+  simpa [Bool.and_eq_true] using h2
 
 theorem step_stmts {F : FloatOps} {n : Nat} (ih : AllS F n) : ∀ ss, sizeOf ss < n + 1 → ∀ B, StmtsF B ss = true →
     GoodC F B (defsL B ss) (needL ss) (compileStmts ss) (fun fuel env => Sem.execList F fuel env ss)
@@ -46,17 +35,35 @@ theorem step_stmts {F : FloatOps} {n : Nat} (ih : AllS F n) : ∀ ss, sizeOf ss 
     exact good_cons F B _ _ _ _ s r (ih.stmt s (by ssz) B h'.1) (ih.stmts r (by ssz) _ h'.2)
 
 theorem step_if {F : FloatOps} {n : Nat} (ih : AllS F n) (B : List String) (pos bp : Pos) (c : Expr) (body : List Stmt)
-    (hsz : sizeOf body < n) (hc : ExprF (bnd B) c = true) (hnb : isBoolLit c = false) (hb : StmtsF B body = true) :
+    (hsz : sizeOf body < n) (hc : condF B c = true) (hb : StmtsF B body = true) :
     GoodB F B (max (need c) (needL body)) (compileStmt (.if_ pos none c bp body none))
-      (fun fuel env => Sem.execStmt F fuel env (.if_ pos none c bp body none)) :=
-  good_ifStmt F B pos bp c body hc hnb _ (good_blockOf F B _ _ body (ih.stmts body hsz B hb))
+      (fun fuel env => Sem.execStmt F fuel env (.if_ pos none c bp body none)) := by
+  have hT := good_blockOf F B _ _ body (ih.stmts body hsz B hb)
+  by_cases ht : isTrueLit c = true
+  · obtain ⟨p, rfl⟩ := isTrueLit_inv ht
+    exact (good_ifTrueStmt F B pos bp p body none _ hT).mono (Nat.le_max_right _ _)
+  · by_cases hf : isFalseLit c = true
+    · obtain ⟨p, rfl⟩ := isFalseLit_inv hf
+      exact (good_ifFalseStmt F B pos bp p body).mono (Nat.zero_le _)
+    · obtain ⟨h1, h2⟩ := condF_split hc ht hf
+      exact good_ifStmt F B pos bp c body h1 h2 _ hT
 
 theorem step_ifElse {F : FloatOps} {n : Nat} (ih : AllS F n) (B : List String) (pos bp : Pos) (c : Expr) (body : List Stmt)
-    (e : Stmt) (hsz : sizeOf body < n) (hsze : sizeOf e < n) (hc : ExprF (bnd B) c = true) (hnb : isBoolLit c = false)
+    (e : Stmt) (hsz : sizeOf body < n) (hsze : sizeOf e < n) (hc : condF B c = true)
     (hb : StmtsF B body = true) (he : ElseF B e = true) :
     GoodB F B (max (need c) (max (needL body) (needS e))) (compileStmt (.if_ pos none c bp body (some e)))
-      (fun fuel env => Sem.execStmt F fuel env (.if_ pos none c bp body (some e))) :=
-  good_ifElseStmt F B pos bp c body e hc hnb _ _ (good_blockOf F B _ _ body (ih.stmts body hsz B hb)) (ih.els e hsze B he)
+      (fun fuel env => Sem.execStmt F fuel env (.if_ pos none c bp body (some e))) := by
+  have hT := good_blockOf F B _ _ body (ih.stmts body hsz B hb)
+  by_cases ht : isTrueLit c = true
+  · obtain ⟨p, rfl⟩ := isTrueLit_inv ht
+    exact (good_ifTrueStmt F B pos bp p body (some e) _ hT).mono
+      (Nat.le_trans (Nat.le_max_left _ _) (Nat.le_max_right _ _))
+  · by_cases hf : isFalseLit c = true
+    · obtain ⟨p, rfl⟩ := isFalseLit_inv hf
+      exact (good_ifFalseElseStmt F B pos bp p body e _ (ih.els e hsze B he)).mono
+        (Nat.le_trans (Nat.le_max_right _ _) (Nat.le_max_right _ _))
+    · obtain ⟨h1, h2⟩ := condF_split hc ht hf
+      exact good_ifElseStmt F B pos bp c body e h1 h2 _ _ hT (ih.els e hsze B he)
 
 theorem step_else {F : FloatOps} {n : Nat} (ih : AllS F n) (e : Stmt) (hsz : sizeOf e < n + 1) (B : List String)
     (h : ElseF B e = true) : GoodB F B (needS e) (compileStmt e) (fun fuel env => Sem.execStmt F fuel env e) := by
@@ -68,13 +75,13 @@ theorem step_else {F : FloatOps} {n : Nat} (ih : AllS F n) (e : Stmt) (hsz : siz
     | none =>
       cases els with
       | none =>
-        have h' : (ExprF (bnd B) c && !isBoolLit c && StmtsF B body) = true := h
-        simp only [Bool.and_eq_true, Bool.not_eq_true'] at h'
-        exact step_if ih B pos bp c body (by ssz) h'.1.1 h'.1.2 h'.2
+        have h' : (condF B c && StmtsF B body) = true := h
+        simp only [Bool.and_eq_true] at h'
+        exact step_if ih B pos bp c body (by ssz) h'.1 h'.2
       | some e' =>
-        have h' : (ExprF (bnd B) c && !isBoolLit c && StmtsF B body && ElseF B e') = true := h
-        simp only [Bool.and_eq_true, Bool.not_eq_true'] at h'
-        exact step_ifElse ih B pos bp c body e' (by ssz) (by ssz) h'.1.1.1 h'.1.1.2 h'.1.2 h'.2
+        have h' : (condF B c && StmtsF B body && ElseF B e') = true := h
+        simp only [Bool.and_eq_true] at h'
+        exact step_ifElse ih B pos bp c body e' (by ssz) (by ssz) h'.1.1 h'.1.2 h'.2
   | _ => cases h
 
 theorem step_stmt {F : FloatOps} {n : Nat} (ih : AllS F n) (st : Stmt) (hsz : sizeOf st < n + 1) (B : List String)
@@ -90,17 +97,32 @@ theorem step_stmt {F : FloatOps} {n : Nat} (ih : AllS F n) (st : Stmt) (hsz : si
     | some e => exact good_return1 F B pos e h
   | if_ pos init c bp body els =>
     cases init with
-    | some i => cases els <;> cases h
+    | some i =>
+      cases els with
+      | none =>
+        have h' : (StmtF B i && (ExprF (bnd (defsOf B i)) c && !isBoolLit c) && StmtsF (defsOf B i) body) = true := h
+        simp only [Bool.and_eq_true, Bool.not_eq_true'] at h'
+        have hI := ih.stmt i (by ssz) B h'.1.1
+        have hT := good_blockOf F (defsOf B i) _ _ body (ih.stmts body (by ssz) _ h'.2)
+        exact (good_ifInitStmt F B _ pos bp i c body h'.1.2.1 h'.1.2.2 _ _ hI hT).toC
+      | some e' =>
+        have h' : (StmtF B i && (ExprF (bnd (defsOf B i)) c && !isBoolLit c) && StmtsF (defsOf B i) body &&
+          ElseF (defsOf B i) e') = true := h
+        simp only [Bool.and_eq_true, Bool.not_eq_true'] at h'
+        have hI := ih.stmt i (by ssz) B h'.1.1.1
+        have hT := good_blockOf F (defsOf B i) _ _ body (ih.stmts body (by ssz) _ h'.1.2)
+        exact (good_ifInitElseStmt F B _ pos bp i c body e' h'.1.1.2.1 h'.1.1.2.2 _ _ _ hI hT
+          (ih.els e' (by ssz) _ h'.2)).toC
     | none =>
       cases els with
       | none =>
-        have h' : (ExprF (bnd B) c && !isBoolLit c && StmtsF B body) = true := h
-        simp only [Bool.and_eq_true, Bool.not_eq_true'] at h'
-        exact (step_if ih B pos bp c body (by ssz) h'.1.1 h'.1.2 h'.2).toC
+        have h' : (condF B c && StmtsF B body) = true := h
+        simp only [Bool.and_eq_true] at h'
+        exact (step_if ih B pos bp c body (by ssz) h'.1 h'.2).toC
       | some e' =>
-        have h' : (ExprF (bnd B) c && !isBoolLit c && StmtsF B body && ElseF B e') = true := h
-        simp only [Bool.and_eq_true, Bool.not_eq_true'] at h'
-        exact (step_ifElse ih B pos bp c body e' (by ssz) (by ssz) h'.1.1.1 h'.1.1.2 h'.1.2 h'.2).toC
+        have h' : (condF B c && StmtsF B body && ElseF B e') = true := h
+        simp only [Bool.and_eq_true] at h'
+        exact (step_ifElse ih B pos bp c body e' (by ssz) (by ssz) h'.1.1 h'.1.2 h'.2).toC
   | assign pos tok lhs rhs =>
     cases lhs with
     | nil => cases h
@@ -142,13 +164,17 @@ theorem step_stmt {F : FloatOps} {n : Nat} (ih : AllS F n) (st : Stmt) (hsz : si
                   exact good_compound F B pos p x r tok op hr (by simpa using hk.2) hop
             | _ => cases h
   | declValue pos tok specs =>
-    obtain ⟨iota, ipos, x, e, rfl, h'⟩ := stmtF_declValue h
-    simp only [Bool.and_eq_true] at h'
-    have ht : tok = tVar := by simpa using h'.1.2
+    have h' : (tok == tVar && !specs.isEmpty && specsF B specs) = true := h
+    simp only [Bool.and_eq_true, Bool.not_eq_true'] at h'
+    have ht : tok = tVar := by simpa using h'.1.1
     subst ht
-    have e1 : defsOf B (.declValue pos tVar [(iota, [(ipos, x)], [some e])]) = x :: B := rfl
-    rw [e1]
-    exact good_varDecl F B pos ipos iota x e h'.1.1 (by simpa using h'.2)
+    exact good_varGroup F B pos specs h'.1.2 h'.2
+  | incdec pos tok tp e =>
+    cases e with
+    | ident p x =>
+      have hx : B.contains x = true := h
+      exact good_incdec F B pos tok tp p x (by simpa using hx)
+    | _ => cases h
   | _ => cases h
 
 theorem allS (F : FloatOps) : ∀ n, AllS F n
